@@ -62,7 +62,10 @@ struct Silence {
   ~Silence() { std::cout.rdbuf(old_out); std::cerr.rdbuf(old_err); }
 };
 
-// mutex observer that turns lock requests into "waiting" phases
+// mutex observer that turns lock requests into "waiting" phases (and ends the "evaluating" state of a task)
 void install_phase_observer();
+// a worker task is "evaluating" from the moment it leaves the trajectory reader until its next mutex operation
+void mark_evaluating(int task, bool on);
+bool is_evaluating(int task);
 
 }  // namespace c05
